@@ -8,11 +8,22 @@ import Ops.BitCoders
 import Ops.MeshTools
 import Ops.Symbols
 import Ops.IO
+import Ops.SeqEnc
 /- Line-protocol driver of the executable model: one op per line in, one line out. -/
 open Draco
 
-def allOps : List (String × (List String → String)) :=
-  Ops.coreOps ++ Ops.codecOps ++ Ops.transformOps ++ Ops.quantOps ++ Ops.cornerTableOps ++ Ops.metadataOps ++ Ops.bitCoderOps ++ Ops.meshToolOps ++ Ops.symbolOps ++ Ops.ioOps
+def allOps : List (String × (List String → String)) := List.flatten [
+  Ops.coreOps,
+  Ops.codecOps,
+  Ops.transformOps,
+  Ops.quantOps,
+  Ops.cornerTableOps,
+  Ops.metadataOps,
+  Ops.bitCoderOps,
+  Ops.meshToolOps,
+  Ops.symbolOps,
+  Ops.ioOps,
+  Ops.seqEncOps]
 
 def dispatch (line : String) : String :=
   match (line.trimAscii.toString.splitOn " ").filter (· ≠ "") with
